@@ -267,8 +267,10 @@ def cell_map(kind, verts):
 def sign_const_on_corners(jdet, kind):
     """Sign of the Jacobian determinant at the reference corners; None if it changes
     or vanishes (then |det| is not a polynomial and the cell is not used)."""
+    if not jdet:  # identically zero Jacobian: degenerate cell
+        return None
     if kind == "simplex":
-        d = len(next(iter(jdet))) if jdet else 0
+        d = len(next(iter(jdet)))
         s = peval(jdet, (0,) * d)
         return (1 if s > 0 else -1) if s != 0 else None
     if kind == "cube":
